@@ -878,8 +878,14 @@ fn h1_sum_check(st: &Sym, expected: &[u64]) -> Result<(), String> {
 
 /// "msg @ file:line" -> "file:line" (class key for panics)
 pub fn panic_location(msg: &str) -> String {
-    match msg.rfind(" @ ") {
-        Some(k) => msg[k + 3..].to_string(),
-        None => "?".into(),
+    let loc = match msg.rfind(" @ ") {
+        Some(k) => &msg[k + 3..],
+        None => return "?".into(),
+    };
+    // relative to the crate root, so that the class does not depend on where
+    // the repository is checked out
+    match loc.rfind("/src/") {
+        Some(k) => loc[k + 1..].to_string(),
+        None => loc.to_string(),
     }
 }
